@@ -569,7 +569,8 @@ class GridBase(metaclass=ABCMeta):
         if axes_bounds is None:
             axes_bounds = self.axes_bounds
 
-        diff = np.atleast_1d(x2) - np.atleast_1d(x1)
+        # use floating-point data so wrapped differences of integer points are exact
+        diff = np.atleast_1d(x2).astype(np.double) - np.atleast_1d(x1)
         assert diff.shape[-1] == self.dim
 
         for i, per in enumerate(periodic):
